@@ -55,8 +55,21 @@ def scenarios(c):
                         steps.append({"api": api, "op": op, "var": var, "val": "-", "stored": {"attrs": sa, "val": rng.choice(VALS)}})
                 steps.append({"api": api, "op": "read", "var": var, "val": "-"})   # absent
                 steps.append({"api": api, "op": "read", "var": var, "val": "-", "stored": {"kind": "short", "rawlen": rng.randrange(0, 4)}})
+            if api == "legacy":
+                # the name-only functions of the legacy API: the vendor GUID follows from the name (image security databases -> security
+                # GUID, every other UEFI-defined name -> global GUID); every predefined definition under these two GUIDs, plus dbt / dbr
+                for (n, g, a) in [x for x in PREDEF if x[1] in ("global", "sec")] + [("dbt", "sec", [NV, BS, RT, AT]), ("dbr", "sec", [NV, BS, RT, AT])]:
+                    var = {"name": n, "guid": g, "attrs": a}
+                    steps.append({"api": "legacyname", "op": "write", "var": var, "val": rng.choice(VALS)})
+                    steps.append({"api": "legacyname", "op": "read", "var": var, "val": "-", "stored": {"attrs": a, "val": rng.choice(VALS)}})
+                    steps.append({"api": "legacyname", "op": "read", "var": var, "val": "-"})
             # split into sequences that share one wrapper object: long shuffled runs so that state kept by the wrapper shows
-            rng.shuffle(steps)
+            # every fifth read is followed at once by the same read of the untouched variable (a second look must see what the first saw)
+            units = []
+            for k, st in enumerate(steps):
+                units.append([st, dict(st, again=True)] if st["op"] != "write" and k % 5 == 0 else [st])
+            rng.shuffle(units)
+            steps = [st for u in units for st in u]
             run = 60 if c.quick else 200
             for i in range(0, len(steps), run):
                 scen.append({"sc": sid, "dir": d, "steps": steps[i:i + run]})
